@@ -781,11 +781,12 @@ theorem C20_x_unsupported_hash {κ : Type} (ks : KeySys κ) (io : FloatIO) (m : 
   · exact hl.1
 
 theorem C20_x_unsupported_obj {κ : Type} (ks : KeySys κ) (io : FloatIO) (m : GMap κ) (ind : Ind) (name : Str) (es : List XEntry)
-    (hl : documentedInX formatLettersX .obj (getG ks m (.obj name es)).f.letter = false) :
+    (hn : name ≠ []) (hl : documentedInX formatLettersX .obj (getG ks m (.obj name es)).f.letter = false) :
     fmtX ks io m ind (.obj name es) = .reported .unsupported := by
   rw [documentedInX_eq_acceptsX formatLettersX C20_x_letters] at hl
   simp [acceptsX, modelLettersX] at hl
   apply fmtX_obj_unsupported
+  · exact hn
   · simp [isHashLetter, hl]
   · exact hl.1
 
@@ -914,7 +915,7 @@ theorem C20_x_hash {κ : Type} (ks : KeySys κ) (io : FloatIO) (m : GMap κ) (in
 /-- **object instances** (non-alt, letters h s p): the type name, then the init hash between `(` and `)` — whatever delimiter
     the format gives — its entries formatted as those of a hash -/
 theorem C20_x_obj {κ : Type} (ks : KeySys κ) (io : FloatIO) (m : GMap κ) (ind : Ind) (name : Str) (es : List XEntry)
-    (texts : List (Str × Str))
+    (texts : List (Str × Str)) (hn : name ≠ [])
     (hl : isHashLetter (getG ks m (.obj name es)).f.letter = true) (halt : (getG ks m (.obj name es)).f.alt = false)
     (hind : ind.indenting = false)
     (hc : EntriesTextX ks io m (cfOfG ks (getG ks m (.obj name es))) (hashChildInd (getG ks m (.obj name es)).f ind) es texts) :
@@ -922,7 +923,17 @@ theorem C20_x_obj {κ : Type} (ks : KeySys κ) (io : FloatIO) (m : GMap κ) (ind
       .text (name ++ (['('] ++
         ((getG ks m (.obj name es)).f.sep.getD [','] ++ [' ']).intercalate
           (texts.map (fun p => p.1 ++ (getG ks m (.obj name es)).f.sep2.getD " => ".toList ++ p.2)) ++ [')'])) :=
-  fmtX_obj ks io m ind name es texts hl halt hind hc
+  fmtX_obj ks io m ind name es texts hn hl halt hind hc
+
+/-- an instance of an ANONYMOUS object type ("can't be written in constructor call form") is written as the Hash of its init hash,
+    after the line break of the context — so in an indenting context it breaks the line twice -/
+theorem C20_x_obj_anon {κ : Type} (ks : KeySys κ) (io : FloatIO) (m : GMap κ) (ind : Ind) (es : List XEntry) :
+    fmtX ks io m ind (.obj [] es) =
+      (fmtX ks io m ind (.hash es)).bind fun s => .text ((if ind.breaks then '\n' :: ind.padding else []) ++ s) :=
+  fmtX_obj_anon ks io m ind es
+
+example : formatX kindKeys io0 [(.base .any, .mk { simpleFmt 'p' with alt := true } none)]
+    (.array [.int 1, .obj [] [.mk (.str ['a']) (.int 1)]]) = .text "[1,\n  \n  {\n    'a' => 1\n  }]".toList := by decide +kernel
 
 /-- **Type values**: the name, then the parameters formatted as an Array under the SAME map (and `ctx.Subsequent()`); `#s` quotes
     and the string flags apply to the whole text -/
@@ -1114,10 +1125,10 @@ theorem C20_x_hash_pp {κ : Type} (ks : KeySys κ) (io : FloatIO) (m : GMap κ) 
     indents and the object is not the first thing on its level, the type name, `(`, in alt mode one `key => value` per line at level
     `L + 1` and the closing `)` on its own line at level `L` -/
 theorem C20_x_obj_pp {κ : Type} (ks : KeySys κ) (io : FloatIO) (m : GMap κ) (L : Nat) (inh nested : Bool) (name : Str)
-    (es : List XEntry) (texts : List (Str × Str)) (hl : isHashLetter (getG ks m (.obj name es)).f.letter = true)
+    (es : List XEntry) (texts : List (Str × Str)) (hn : name ≠ []) (hl : isHashLetter (getG ks m (.obj name es)).f.letter = true)
     (hc : EntriesTextX ks io m (cfOfG ks (getG ks m (.obj name es))) ⟨true, (getG ks m (.obj name es)).f.alt, L + 1⟩ es texts) :
     fmtX ks io m ⟨!nested, inh, L⟩ (.obj name es) = .text (ppObj (getG ks m (.obj name es)).f L inh nested name texts) :=
-  fmtX_obj_pp ks io m L inh nested name es texts hl hc
+  fmtX_obj_pp ks io m L inh nested name es texts hn hl hc
 
 /-- non-vacuity: `%#p` of an object whose attribute holds an array of an object and an integer -/
 example : formatX kindKeys io0 [(.base .obj, .mk { simpleFmt 'p' with alt := true } none), (.base .arr, .mk { simpleFmt 'a' with alt := true } none)]
